@@ -1,7 +1,8 @@
 #!/usr/bin/env python3
 """tools/seed_fulltests.py <seed dir> [<seed dir> ...]
 
-Confirms "the seeded change still passes the existing tests": for every seed directory (holding
+Confirms "the seeded change still passes the existing tests" (SEEDTEST_MODE=relevant: only the test
+packages of the changed subpackages and their main dependants, see below): for every seed directory (holding
 patch.diff) a fresh scratch worktree of /repo HEAD is made under /tmp, the patch applied, the PINNED
 test command of /root/.vp/BASELINE.json run in it (whole suite, junit), and the result compared with
 BASELINE.json's stable_pass list.  Stable tests that did not pass are re-run once, file by file, to
@@ -53,8 +54,32 @@ def run(seed):
         env = dict(os.environ, PYTHONPATH=wt + "/src", PYTHONDONTWRITEBYTECODE="1")
         xml = os.path.join(OUT, label + ".xml")
         t0 = time.time()
+        targets, stable = [], STABLE
+        if os.environ.get("SEEDTEST_MODE") == "relevant":
+            # the test packages of every changed file's subpackage + the general src/twisted/test
+            # (+ the main dependants of twisted.internet); compared with the stable tests living there
+            changed = subprocess.run(["git", "-C", wt, "diff", "--name-only"], capture_output=True, text=True).stdout.split()
+            pk = {"test"}
+            for c in changed:
+                parts = c.split("/")
+                if len(parts) > 3 and parts[:2] == ["src", "twisted"]:
+                    pk.add(parts[2])
+            if "internet" in pk:
+                pk |= {"protocols", "web", "application", "names", "mail", "words", "conch", "spread", "_threads", "logger"}
+            if "python" in pk or "logger" in pk:
+                pk |= {"logger", "application", "web"}
+            if "protocols" in pk:
+                pk |= {"web", "mail", "words", "conch", "spread", "names"}
+            if "cred" in pk:
+                pk |= {"web", "mail", "words", "conch", "spread"}
+            targets = sorted("src/twisted/" + x for x in pk if os.path.isdir(os.path.join(wt, "src/twisted", x)))
+            pref = tuple(t.replace("/", ".") + "." for t in targets)
+            stable = {t for t in STABLE if t.startswith(pref)}
+            res["mode"] = "relevant"; res["targets"] = targets
+        else:
+            res["mode"] = "full"
         subprocess.run(["/venv/bin/python", "-m", "pytest", "-ra", "-q", "-p", "no:cacheprovider", "--timeout=900",
-                        "--continue-on-collection-errors", "--junitxml=" + xml], cwd=wt, env=env,
+                        "--continue-on-collection-errors", "--junitxml=" + xml] + targets, cwd=wt, env=env,
                        stdout=subprocess.DEVNULL, stderr=subprocess.DEVNULL)
         res["wall_s"] = round(time.time() - t0)
         # make sure the run used the patched tree
@@ -62,8 +87,8 @@ def run(seed):
                              capture_output=True, text=True).stdout.strip()
         res["twisted_from"] = chk
         ok = passed_in(xml)
-        missing = sorted(STABLE - ok)
-        res["stable"] = len(STABLE); res["passed"] = len(ok); res["missing_first_run"] = missing[:50]
+        missing = sorted(stable - ok)
+        res["stable"] = len(stable); res["passed"] = len(ok); res["missing_first_run"] = missing[:50]
         still = missing
         if missing and len(missing) < 400:
             files = sorted({f for f in (file_of(wt, m.split("::")[0]) for m in missing) if f})
